@@ -38,7 +38,7 @@ PROBES = ["ran_to_completion", "forced_cleanup_deleted_preexisting", "refused_wi
           "relative_workspace", "default_workspace", "input_via_symlinked_ancestor", "cwd_contains_default_name",
           "c_language", "c_header_preprocess", "second_run_other_project", "second_run_incremental", "spawned_subprocess", "graph_output", "javascript_language",
           "inputs_share_base_name", "input_given_with_leading_dotdots", "strict_parse_mode", "non_utf8_source_file",
-          "pwd_is_start_directory", "pwd_left_over_from_launcher", "two_inputs_contain_workspace", "not_quiet", "taint_report_written", "debug_print_stmts", "workspace_below_a_src_directory"]
+          "pwd_is_start_directory", "pwd_left_over_from_launcher", "two_inputs_contain_workspace", "not_quiet", "taint_report_written", "debug_print_stmts", "workspace_below_a_src_directory", "plugin_option", "first_run_incremental"]
 # the same check again, smaller, in interpreters started with assertions stripped (python -O / PYTHONOPTIMIZE=1)
 ENV_VARIANTS = [{"name": "python-O", "env": {"PYTHONOPTIMIZE": "1"}, "runs": {'quick': 250, 'thorough': 2500}}]
 TIERS = {
@@ -81,6 +81,15 @@ CSRC = ['#include <stdio.h>\n#include "util.h"\nint add(int a, int b) {\n    ret
         '#include "generated/config.h"\nint conf(void) {\n    return CONFIG_VALUE;\n}\n',
         'int twice(int x) {\n    int y = x * 2;\n    return y;\n}\n',
         '#include <stdlib.h>\nstatic int g;\nvoid set(int v) {\n    g = v;\n}\n']
+PLUGIN_OK = ("from lian.events.handler_template import EventHandlerManager\n"
+             "import lian.events.event_return as er\n"
+             "class ProbePlugin(EventHandlerManager):\n"
+             "    def __init__(self, event_manager):\n"
+             "        super().__init__(event_manager)\n"
+             "        for event in sorted(event_manager.event_handlers):\n"
+             "            event_manager.register(event, self.passive, ['zz_no_such_language'])\n"
+             "    def passive(self, data):\n"
+             "        return er.EventHandlerReturnKind.UNPROCESSED\n")
 OTHER = {"README.md": "# readme\n", "data.json": "{}\n", "notes.txt": "keep me\n", "Makefile": "all:\n"}
 
 
@@ -113,6 +122,8 @@ def gen_knobs(rng, tier):
         "nested_inputs": rng.random() < 0.2,
         "quiet": rng.random() < 0.6,          # without -q the taint phase writes its report file
         "umask": rng.choice(["022", "022", "077", "000", "027"]),
+        "incremental_first": rng.random() < 0.08,     # the first run is already an --incremental one (no -f) on whatever is there
+        "plugin": rng.choice(["none", "none", "none", "none", "none", "none", "ok", "broken"]),   # -e <file>: loads, or raises while loading
         "debug_print": rng.random() < 0.15,   # -d -p (never quiet): debug output and statement dumps
         "ws_under_src": rng.random() < 0.2,   # the workspace below a directory that is itself called src (a checkout's src/)
         "tier": tier,
@@ -178,6 +189,13 @@ def generate(rng, k):
     ops.append({"op": "mkfile", "path": "bystander/precious.py", "content": "SECRET = 1\n"})
     ops.append({"op": "mkfile", "path": "keep.txt", "content": "root bystander\n"})
     ops.append({"op": "mkdir", "path": "cw"})
+    if k.get("plugin", "none") != "none":
+        ops.append({"op": "mkfile", "path": "plugins/helper_notes.txt", "content": "next to the plug-in\n"})
+        ops.append({"op": "mkfile", "path": f"plugins/{DEFAULT_WS}/frontend/results_of_another_analysis.txt", "content": "keep me\n"})
+        if k["plugin"] == "ok":
+            ops.append({"op": "mkfile", "path": "plugins/probe_plugin.py", "content": PLUGIN_OK})
+        else:
+            ops.append({"op": "mkfile", "path": "plugins/probe_plugin.py", "content": "import helper_module_that_is_not_installed\n" + PLUGIN_OK})
     if k.get("pwd_env") == "stale":
         ops.append({"op": "mkfile", "path": f"elsewhere_pwd/{DEFAULT_WS}/frontend/results_of_another_analysis.txt", "content": "keep me\n"})
         ops.append({"op": "mkfile", "path": "elsewhere_pwd/outp/note.txt", "content": "keep me too\n"})
@@ -250,11 +268,13 @@ def generate(rng, k):
     cwd = "cw"
     if k["cwd_in_input"] and inputs and not inputs[0].endswith(".py"):
         cwd = inputs[0]
-    run = {"op": "run", "sub": k["sub"], "lang": k["lang"], "force": k["force"], "cwd": cwd, "pwd_env": k.get("pwd_env", "unset"),
+    run = {"op": "run", "sub": k["sub"], "lang": k["lang"], "force": k["force"] and not k.get("incremental_first"), "cwd": cwd,
+           "pwd_env": k.get("pwd_env", "unset"), "plugin": k.get("plugin", "none") != "none",
            "quiet": k.get("quiet", True) and not k.get("debug_print"), "umask": k.get("umask", "022"),
            "flags": (["--nomock"] if k["nomock"] else []) + (["-I"] if k["lang"] == "c" and k.get("c_preprocess") else [])
                     + (["--strict-parse-mode"] if k.get("strict") else [])
                     + (["-d", "-p"] if k.get("debug_print") else [])
+                    + (["--incremental"] if k.get("incremental_first") else [])
                     + ((["--graph", "--enable-p2"] if k.get("graph") and k["sub"] != "lang" else []))}
     if wform == "omitted":
         # default name relative to cwd: the workspace is <cwd>/lian_workspace
@@ -397,8 +417,14 @@ def execute(trace):
             w_value = None if op.get("w") is None else _path_arg(R, cwd_abs, op["w"])
             in_args = [_path_arg(R, cwd_abs, i) for i in op["inputs"]]
             W = effective_workspace(cwd_abs, w_value)
+            flags_ = list(op.get("flags", []))
+            if op.get("plugin") and os.path.isfile(os.path.join(R, "plugins", "probe_plugin.py")):
+                flags_ += ["-e", os.path.join(R, "plugins", "probe_plugin.py")]
+                hit("plugin_option")
             spec = {"sub": op["sub"], "lang": op["lang"], "force": op["force"], "workspace": w_value, "inputs": in_args,
-                    "flags": op.get("flags", []), "quiet": op.get("quiet", True)}
+                    "flags": flags_, "quiet": op.get("quiet", True)}
+            if "--incremental" in flags_ and n_run == 1:
+                hit("first_run_incremental")
             if not op.get("quiet", True):
                 hit("not_quiet")
             if "-p" in op.get("flags", []):
